@@ -128,7 +128,7 @@ def run(rep, tier, seed):
     rej = {x[0] for x in rejects}
     acc = [p["id"] for p in probes if p["id"] not in rej]
     if len(acc) > 1:        # dropping the last pair of a chain can still be a valid chain only in rare cases
-        raise core.MachineryError("P accepted corrupted traces: %s" % acc)
+        core.probe_fail(rejects, "P accepted corrupted traces: %s" % acc)
     rep.extra["probes_rejected"] = len(probes) - len(acc)
     rep.traces = len(traces)
     for tid, clause, _ in rejects:
